@@ -5,6 +5,7 @@ import (
 	"encoding/json"
 	"errors"
 	"fmt"
+	"io/ioutil"
 	"strings"
 	"sync"
 	"time"
@@ -12,6 +13,7 @@ import (
 	"github.com/samsarahq/thunder/batch"
 	"github.com/samsarahq/thunder/graphql"
 	"github.com/samsarahq/thunder/reactive"
+	"verifharness/pkg/vh"
 )
 
 // ---- schedulers ----
@@ -342,4 +344,132 @@ func editAt(q *Query, pos int) (*Query, bool) {
 		return c, true
 	}
 	return c, true
+}
+
+// ---- failing-input search ----
+
+// ReadSeeds loads the cases of a -search file (cases.jsonl lines).
+func ReadSeeds(path string) []*Case {
+	var out []*Case
+	b, err := ioutil.ReadFile(path)
+	if err != nil {
+		return nil
+	}
+	for _, line := range strings.Split(string(b), "\n") {
+		var w struct {
+			Case *Case `json:"case"`
+		}
+		if strings.TrimSpace(line) != "" && json.Unmarshal([]byte(line), &w) == nil && w.Case != nil && w.Case.Spec != nil {
+			w.Case.Fix()
+			out = append(out, w.Case)
+		}
+	}
+	return out
+}
+
+// Variant is a small edit of a case on which model and implementation disagreed: another query, data,
+// mode assignment or schedule on the same schema, a node or a directive less, a condition negated, or
+// (inject) one more failing resolver among those the query uses.
+func Variant(r *vh.Rng, seed *Case, qo QOpts, pFail int, inject bool) *Case {
+	b, _ := json.Marshal(seed)
+	c := &Case{}
+	json.Unmarshal(b, c)
+	c.Fix()
+	c.Origin = "search"
+	for k := 1 + r.Intn(2); k > 0; k-- {
+		switch r.Intn(8) {
+		case 0:
+			c.Query = GenQuery(r, c.Spec, qo)
+		case 1:
+			c.Data = GenData(r, c.Spec, pFail)
+		case 2:
+			for i := range c.Modes {
+				c.Modes[i] = GenModes(r, c.Spec)
+			}
+		case 3:
+			for i := range c.Choices {
+				for j := range c.Choices[i] {
+					c.Choices[i][j] = r.Intn(9)
+				}
+			}
+		case 4, 5:
+			// drop a node / a node's directives
+			n := 0
+			for {
+				if _, ok := editAt(c.Query, n); !ok {
+					break
+				}
+				n++
+			}
+			if n > 0 {
+				if q, ok := editAt(c.Query, r.Intn(n)); ok && !hasEmptySet(q) {
+					c.Query = q
+				}
+			}
+		case 6:
+			// negate the literal conditions of the directives, or bind the variables the other way
+			if r.Bool() {
+				negateLits(c.Query.Body, r)
+				for _, f := range c.Query.Frags {
+					negateLits(f.Body, r)
+				}
+			} else {
+				for k, v := range c.Query.Vars {
+					if bv, ok := v.(bool); ok && r.Bool() {
+						c.Query.Vars[k] = !bv
+					}
+				}
+				for k, v := range c.Query.Defaults {
+					if bv, ok := v.(bool); ok && r.Bool() {
+						c.Query.Defaults[k] = !bv
+					}
+				}
+			}
+		default:
+			if inject && c.Query.DirsWellFormed() {
+				InjectFailure(r, RefEval(c.Spec, c.Data, c.Query.Prune()).Reached)
+			} else {
+				c.Data = GenData(r, c.Spec, pFail)
+			}
+		}
+	}
+	return c
+}
+
+func negateLits(ns []*Node, r *vh.Rng) {
+	for _, n := range ns {
+		for i := range n.Dirs {
+			if n.Dirs[i].Lit != nil && r.Chance(40) {
+				v := !*n.Dirs[i].Lit
+				n.Dirs[i].Lit = &v
+			}
+		}
+		negateLits(n.Sub, r)
+	}
+}
+
+// hasEmptySet: some selection set of the query has no member (cannot be written as GraphQL text).
+func hasEmptySet(q *Query) bool {
+	var walk func(ns []*Node, isSet bool) bool
+	walk = func(ns []*Node, isSet bool) bool {
+		if isSet && len(ns) == 0 {
+			return true
+		}
+		for _, n := range ns {
+			if (n.Kind == "field" && n.HasSub || n.Kind == "inline") && walk(n.Sub, true) {
+				return true
+			}
+		}
+		return false
+	}
+	if walk(q.Body, true) {
+		return true
+	}
+	used := q.usedFrags()
+	for _, f := range q.Frags {
+		if used[f.Name] && walk(f.Body, true) {
+			return true
+		}
+	}
+	return false
 }
